@@ -17,7 +17,8 @@ NOT_PROVED = {
  "C08": ["without NoEmbedded the full statement is false (known finding F4); damage to length / type fields is covered by the oracle only; proved: positions strictly increasing for ANY directory content (open_inv), codec soundness, CRC-detected damage of any set of frames delivers a sub-list of the written entries, at stream level (DamageProofs.v) and through open over the files (DamageFile.open_damaged)"],
  "C09": ["nothing essential: C09_damage_costs_one_entry / C09_from_fresh are proved end to end (any state satisfying the global invariant, one entry damaged in the checksum/payload bytes of one frame so that the CRC fails); premise dmg_bound (the recovery-time GC's position entries fit below 2^64 files) mentions the ghost log",
          "damage to the length field or type byte of a frame is outside C09's quantifier (payload / checksum bytes only); an undetected change (CRC collision) is excluded by the premise that the CRC check fails"],
- "C10": ["panic freedom: the model is total (slices and indexing default), so 'never panics' is not a model theorem; it is checked on the real crate under catch_unwind on every generated image; proved: termination on every directory and well-formedness of the returned state",
+ "C10": ["panic freedom is proved on the MODEL VALUES at the enumerated panic sites (PanicFree.v lists every site with its Rust location and status); sites not covered: Instant::now() + interval (time not modelled), arithmetic on in-memory sizes and byte counters (no bound in the model), allocation failure, std internals; the enumeration itself is by reading the Rust source and is trusted",
+         "two shapes are excluded by premises and recorded as known findings: F6 (record at position u64::MAX, debug builds) and F9 (a WAL file longer than a full file + a ~32 KiB queue name: assert in RollingWriter::write during the recovery-time GC)",
          "allocation bound is not stated as a theorem"],
  "C11": [],
  "C12": [
